@@ -68,7 +68,7 @@ def convert(events):
 
 
 class IxWorld(object):
-    def __init__(self, storage="file", compound=True, sortable=True):
+    def __init__(self, storage="file", compound=True, sortable=True, reopen=False):
         from whoosh import fields
         self.log = Log()
         self.dir = None
@@ -82,6 +82,14 @@ class IxWorld(object):
                                     body=fields.TEXT(sortable=sortable), n=fields.NUMERIC(sortable=sortable),
                                     tags=fields.KEYWORD(stored=True))
         self.ix = self.st.create_index(self.schema)
+        self.ix2 = None
+        if reopen:
+            # work the way an application does: handles obtained by opening the existing index (no schema
+            # object handed in), one for writing and searching and a second, independent one for searching
+            self.ix.close()
+            self.ix = self.st.open_index()
+            self.ix2 = self.st.open_index()
+        self._flip = 0
         self.log.events = []           # the trace starts from the freshly created index
         self.compound = compound
         self.nw = 0
@@ -91,6 +99,11 @@ class IxWorld(object):
 
     def actor(self, name):
         self.log.set_actor(name)
+
+    def reader_handle(self):
+        """The index handle the next searcher is opened through (alternating when there are two)."""
+        self._flip += 1
+        return self.ix2 if (self.ix2 is not None and self._flip % 2 == 0) else self.ix
 
     def writer(self, **kw):
         self.nw += 1
@@ -154,6 +167,11 @@ class IxWorld(object):
             views.append([h["key"] for h in s.search(query.Term("body", u"xx"), limit=None, scored=False)])
             views.append([rd.stored_fields(dn)["key"] for dn in rd.all_doc_ids()])
             views.append([s.stored_fields(dn)["key"] for dn in s.docs_for_query(query.Every("key"))])
+            # order-sensitive views: sorting by a field without a column goes through a per-searcher cache of
+            # term ranks per document number, which a refreshed searcher must not inherit from renumbered documents
+            bykeyorder = [h["key"] for h in s.search(query.Every(), limit=None, sortedby="key")]
+            if bykeyorder != sorted(docs):
+                n = -1
             groups = s.search(query.Every(), limit=None, groupedby="key").groups()
             views.append([k for k, dns in groups.items() for _ in dns])
             bykey = []
@@ -181,6 +199,11 @@ class IxWorld(object):
             # writer's add_field / remove_field may be left in it)
             if s.up_to_date() and sorted(self.ix.schema.names()) != sorted(s.schema.names()):
                 n = -1
+            # ... and a searcher keeps the schema of its own generation whatever is committed later
+            names = sorted(s.schema.names())
+            if getattr(s, "_verif_schema_names", names) != names:
+                n = -1
+            s._verif_schema_names = names
             if rd.doc_count() != len(docs) or rd.doc_count_all() < len(docs) \
                     or rd.has_deletions() != (rd.doc_count_all() != rd.doc_count()):
                 n = -1
@@ -204,15 +227,72 @@ class IxWorld(object):
             shutil.rmtree(self.dir, ignore_errors=True)
 
 
+def renumbering_history(rng, wld, rounds=3, keys=("k1", "k2", "k3", "k4", "k5", "k6")):
+    """A held searcher is probed (which fills its per-field caches), a commit renumbers the documents while
+    the total count stays what it was (replace one / delete one and add another, then optimize), and the
+    refreshed searcher is probed."""
+    def commit(ops, **kw):
+        name, wr = wld.writer()
+        for op, k in ops:
+            wld.api(name, "delete", k)
+            if op == "put":
+                wld.api(name, "add", k)
+                wld.actor(name)
+                wr.update_document(key=k, body=u"xx %s" % k, n=len(k))
+            else:
+                wld.actor(name)
+                wr.delete_by_term("key", k)
+        wld.actor(name)
+        wr.commit(**kw)
+    live = list(keys[:-1])
+    spare = [keys[-1]]
+    commit([("put", k) for k in rng.sample(live, len(live))])
+    name = wld.new_reader_name()
+    ok, s = wld.guarded(name, "searcher", wld.reader_handle().searcher)
+    if not ok:
+        return
+    wld.probe(name, s)
+    for _ in range(rounds):
+        if rng.random() < 0.5:
+            commit([("put", rng.choice(live))], optimize=True)
+        else:
+            gone = rng.choice(live)
+            new = spare.pop()
+            live[live.index(gone)] = new
+            spare.append(gone)
+            commit([("del", gone), ("put", new)], optimize=True)
+        name2 = wld.new_reader_name()
+        ok, s2 = wld.guarded(name2, "refresh", s.refresh)
+        if not ok:
+            return
+        if s2 is not s:
+            name, s = name2, s2
+        wld.probe(name, s)
+    wld.actor(name)
+    s.close()
+
+
 def random_history(rng, wld, nsteps, keys=("k1", "k2", "k3", "k4", "k5")):
     """Sequential history: writers one at a time; searchers kept open across commits."""
     searchers = []        # (name, searcher)
     live = set()
+    extra_fields = 0      # committed extra fields (a commit may change nothing but the schema)
     for _ in range(nsteps):
         c = rng.random()
         if c < 0.55:
             name, wr = wld.writer()
             adds, dels = [], []
+            pending_fields = extra_fields
+            sc = rng.random()
+            if getattr(wld, "rich_probe", False) and sc < 0.15 and extra_fields < 2:
+                from whoosh import fields
+                pending_fields = extra_fields + 1
+                wld.actor(name)
+                wld.guarded(name, "add_field", lambda: wr.add_field("extra%d" % pending_fields, fields.KEYWORD(stored=True)))
+            elif getattr(wld, "rich_probe", False) and sc < 0.25 and extra_fields > 0:
+                wld.actor(name)
+                wld.guarded(name, "remove_field", lambda: wr.remove_field("extra%d" % extra_fields))
+                pending_fields = extra_fields - 1
             pool = list(keys)
             rng.shuffle(pool)
             clear = rng.random() < 0.08
@@ -228,13 +308,15 @@ def random_history(rng, wld, nsteps, keys=("k1", "k2", "k3", "k4", "k5")):
                     wld.api(name, "delete", k)
                     wld.api(name, "add", k)
                     wld.actor(name)
-                    wr.update_document(key=k, body=u"x %s" % k, n=len(k))
+                    wr.update_document(key=k, body=u"xx %s" % k, n=len(k))
                 elif op < 0.8:
                     wld.api(name, "delete", k)
                     wld.actor(name)
                     wr.delete_by_term("key", k)
             wld.actor(name)
             end = rng.random()
+            if clear or end >= 0.15:
+                extra_fields = pending_fields
             if clear:
                 from whoosh import writing
                 wr.commit(mergetype=writing.CLEAR)
@@ -248,7 +330,7 @@ def random_history(rng, wld, nsteps, keys=("k1", "k2", "k3", "k4", "k5")):
                 wr.commit()
         elif c < 0.75 or not searchers:
             name = wld.new_reader_name()
-            ok, s = wld.guarded(name, "searcher", wld.ix.searcher)
+            ok, s = wld.guarded(name, "searcher", wld.reader_handle().searcher)
             if ok:
                 searchers.append((name, s))
                 wld.probe(name, s)
